@@ -70,6 +70,11 @@ type fakeClock struct {
 	auth    map[uint64]bool // WaitExecution goroutines whose authorization takes until the hold ends
 }
 
+type delayedSync struct {
+	report string
+	at     int64 // clock value the call read
+}
+
 // gatedAuthorizer is the execute authorizer: it allows everything, but the authorization
 // of a WaitExecution call that was started with hold=1 takes until the hold is released
 // (the scheduler drops its lock around the authorizer, which "may block").
@@ -108,16 +113,30 @@ func goid() uint64 {
 
 func (c *fakeClock) Now() time.Time {
 	c.mu.Lock()
+	now := time.Unix(c.now, 0)
 	if g := c.gate; g != nil {
-		// only calls that were already in progress when the hold began are suspended
+		// only calls that were already in progress when the hold began are suspended (or a new
+		// call started with hold=2); they have read the clock and are overtaken by whatever
+		// runs until the hold ends, i.e. they enter the scheduler with an old time stamp
 		if since, ok := c.held[goid()]; ok && since < c.gateSeq {
 			c.mu.Unlock()
 			<-g
-			c.mu.Lock()
+			return now
 		}
 	}
-	defer c.mu.Unlock()
-	return time.Unix(c.now, 0)
+	c.mu.Unlock()
+	return now
+}
+
+// markDelayed makes the calling goroutine's next clock read (the one in front of its first
+// acquisition of the scheduler lock) wait for the end of the current hold.
+func (c *fakeClock) markDelayed() {
+	c.mu.Lock()
+	if c.held == nil {
+		c.held = map[uint64]int{}
+	}
+	c.held[goid()] = c.gateSeq - 1
+	c.mu.Unlock()
 }
 
 func (c *fakeClock) markHeld() {
@@ -348,7 +367,9 @@ type world struct {
 	terms     map[int]*call
 	panicked  string
 	dkeys     map[string]int
-	pqSpec    map[int]string // id -> "comps plat"
+	pqSpec    map[int]string         // id -> "comps plat"
+	delayNext bool                   // the next Synchronize call is overtaken between its clock read and the scheduler lock (hold=2)
+	delayed   map[string]delayedSync // such calls that have not reached the scheduler yet
 	slowSends bool
 	sending   map[int]*sendGate
 }
@@ -668,9 +689,20 @@ func (w *world) startSync(pq string, sc int, comps []int, plat int, h, t int, re
 			ExecutionState: &remoteworker.CurrentState_Executing_Completed{Completed: resp},
 		}}}
 	}
+	delayed := w.delayNext
+	w.delayNext = false
+	if delayed {
+		if w.delayed == nil {
+			w.delayed = map[string]delayedSync{}
+		}
+		w.delayed[key] = delayedSync{report, w.clk.now}
+	}
 	go func() {
 		defer w.guard("Synchronize")
 		w.clk.markHeld()
+		if delayed {
+			w.clk.markDelayed()
+		}
 		r, err := w.bq.Synchronize(ctx, req)
 		w.clk.unmarkHeld()
 		text := ""
